@@ -574,6 +574,14 @@ theorem C22_history (hmac : Hmac) (cfg : Config) (sep : Str) (hsep : ',' ∈ sep
     simp only [runGate, Spec.runTable, hstep, List.map_cons]
     rw [ih _ r.mono hnext h2]
 
+/-- in particular from a freshly constructed gate (empty cache), at whatever the cache clock reads first -/
+theorem C22_history_from_empty (hmac : Hmac) (cfg : Config) (sep : Str) (hsep : ',' ∈ sep) (reqs : List Req)
+    (ttl : Int) (cap : Nat) (t0 : Int) (hm : Spec.ClockMonotone t0 reqs) :
+    runGate hmac cfg sep (some ⟨ttl, cap, []⟩) reqs =
+      ((Spec.runTable hmac cfg (some ⟨ttl, cap, []⟩) reqs).1.map Outcome.done,
+       (Spec.runTable hmac cfg (some ⟨ttl, cap, []⟩) reqs).2) :=
+  C22_history hmac cfg sep hsep reqs _ t0 (cache_inv_empty ttl cap t0) hm
+
 /-- totality: the verifier returns claims or one of the seven reason codes — never anything else -/
 theorem C22_total (hmac : Hmac) (cfg : Config) (sep : Str) (hsep : ',' ∈ sep) (vals : List Str) (now : Int)
     (cache : Option NonceState) (mono : Int) (hinv : InvO cache mono) :
